@@ -64,6 +64,11 @@ func alphaSubjects(t core.Tier) []any {
 	s := stringsUpTo(c20Alphabet, l)
 	// a few longer subjects around multi-byte boundaries
 	s = append(s, "ééééé", "世世", "aaaaaa", "Zzzzzzz9!", "\xc3", "\xe4\xb8", "a\xc3(", "é世a", strings.Repeat("x", 70), "\u017f", "\u212a", "a\u212a9!", "\u0130\u0131")
+	// characters of the Unicode classes next to the ASCII ones the character-class tests are documented with: decimal digits of
+	// other scripts, other numbers, Latin-1 and general punctuation / symbols, upper-, title- and lower-case letters outside ASCII
+	for _, r := range []string{"٣", "３", "५", "²", "½", "Ⅷ", "¡", "¢", "£", "§", "©", "«", "¬", "®", "°", "±", "·", "»", "¿", "×", "÷", "€", "—", "…", "ǅ", "ß", "İ", "ᾈ", "Ａ", "ａ", "É", "Д", "µ", "ª"} {
+		s = append(s, r, "a"+r+"b", r+r)
+	}
 	alphaCache[l] = s
 	return s
 }
@@ -189,6 +194,10 @@ func buildC20Configs() []c20cfg {
 		for _, r := range []rune{0x100, 0x391, 0xff21, 0xff10, 0x2019, 0x1F600, 0x00c0, 0x0660} {
 			s = append(s, string(r))
 		}
+		// every code point of Latin-1 Supplement and Latin Extended-A as text (the bytes above are not valid UTF-8 on their own)
+		for r := rune(0x80); r < 0x180; r++ {
+			s = append(s, string(r), "x"+string(r)+"y")
+		}
 		return s
 	}
 	addS("String.ContainsUpper/allbytes", spec.Test{Op: spec.TContainsUpper}, allChars, true)
@@ -208,7 +217,7 @@ func buildC20Configs() []c20cfg {
 	for _, e := range ref.RegexCatalogue {
 		subj := func(t core.Tier) []any {
 			s := append([]any{}, alphaSubjects(t)...)
-			return append(s, "foo", "xfoox", "abc", "a\nc", "a世c", "123", "1234", "abcz", "ab1")
+			return append(s, "foo", "xfoox", "abc", "a\nc", "a世c", "123", "1234", "abcz", "ab1", "yes", "oh yes", "yes!", "ok", "look", "ok\n", "v1.0", "v1x0", "xv1.0", "v1.00", "abcé", "éabc", "yes\nyes")
 		}
 		addS(fmt.Sprintf("String.Match(/%s/)", e.Pattern), spec.Test{Op: spec.TMatch, Re: regexp.MustCompile(e.Pattern)}, subj, true)
 	}
@@ -370,6 +379,72 @@ func c20ZeroOrBlank(k spec.Kind, subj any, mode ref.Mode) bool {
 
 // c20SameCodeTwice: two tests of one node that share a code (and, through a Message option or a text that names no parameter, a
 // message) but not their argument each decide their own predicate: a value failing both yields both issues.
+// c20ItemsRewritten: the slice's own tests decide on the slice the caller ends up with - after item schemas with Default / Catch
+// rewrote absent or failing items - in Parse and in Validate.
+func c20ItemsRewritten(c *core.Ctx) bool {
+	type sc struct {
+		name   string
+		mk     func() *z.SliceSchema
+		vals   [][]string
+		needle string
+	}
+	scs := []sc{
+		{`Slice(String.Default("x")).Contains("x")`, func() *z.SliceSchema { return z.Slice(z.String().Default("x")).Contains("x") }, [][]string{{"", "a"}, {"a", "b"}, {"x"}, {"", ""}, {"a", " "}}, "x"},
+		{`Slice(String.Default("x")).Contains("")`, func() *z.SliceSchema { return z.Slice(z.String().Default("x")).Contains("") }, [][]string{{"", "a"}, {"a", "b"}, {"x"}}, ""},
+		{`Slice(String.Min(3).Catch("zzz")).Contains("zzz")`, func() *z.SliceSchema { return z.Slice(z.String().Min(3).Catch("zzz")).Contains("zzz") }, [][]string{{"ab", "abcd"}, {"abcd"}, {"zzz"}, {"a", "b"}}, "zzz"},
+		{`Slice(String.Min(3).Catch("zzz")).Contains("ab")`, func() *z.SliceSchema { return z.Slice(z.String().Min(3).Catch("zzz")).Contains("ab") }, [][]string{{"ab", "abcd"}, {"abcd"}}, "ab"},
+		{`Slice(String.Required().Catch("c")).Contains("c")`, func() *z.SliceSchema { return z.Slice(z.String().Required().Catch("c")).Contains("c") }, [][]string{{"", "q"}, {"q"}}, "c"},
+	}
+	for _, x := range scs {
+		for _, val := range x.vals {
+			for _, mode := range []string{"Parse", "Validate"} {
+				var final []string
+				var m z.ZogIssueMap
+				if mode == "Parse" {
+					in := make([]any, len(val))
+					for i := range val {
+						in[i] = val[i]
+					}
+					m = x.mk().Parse(in, &final)
+				} else {
+					final = append([]string(nil), val...)
+					m = x.mk().Validate(&final)
+				}
+				c.Eval(1)
+				member := false
+				for _, e := range final {
+					if e == x.needle {
+						member = true
+					}
+				}
+				failed, others := 0, 0
+				for k, l := range m {
+					if k == "$first" {
+						continue
+					}
+					for _, e := range l {
+						if e.Code == "contains" {
+							failed++
+						} else {
+							others++
+						}
+					}
+				}
+				if others > 0 {
+					continue
+				}
+				if member == (failed > 0) || failed > 1 {
+					c.Violation("test-decides-on-another-value|Slice.Contains-with-rewriting-items", map[string]any{"schema": x.name, "mode": mode, "slice_before": val, "slice_the_caller_ends_up_with": final, "needle": x.needle, "is_member": member, "contains_issues": failed})
+					return false
+				}
+				c.NonTrivial(fpf("rewritten|%s|%v|%s", x.name, val, mode))
+			}
+		}
+	}
+	c.Count("slice_tests_after_item_rewrites", 1)
+	return true
+}
+
 func c20SameCodeTwice(c *core.Ctx) bool {
 	m := z.Message("not allowed here")
 	type probe struct {
@@ -449,6 +524,9 @@ func c20SameCodeTwice(c *core.Ctx) bool {
 
 func (c20) RunCase(c *core.Ctx) {
 	if c.Case == 5 && !c20SameCodeTwice(c) {
+		return
+	}
+	if c.Case == 6 && !c20ItemsRewritten(c) {
 		return
 	}
 	cfg := c20Configs[c.Case]
